@@ -60,8 +60,11 @@ func NewUnitDividedSpatialID(
 		}
 	}
 
+	// 引数の拡張空間IDを後続のセッターで書き換えないよう複製して保持する
+	id := *s
+
 	return &UnitDividedSpatialID{
-		ExtendedSpatialID: s,
+		ExtendedSpatialID: &id,
 		hDiff:             hDiff,
 		vDiff:             vDiff,
 		unitIDs:           unitIDs,
